@@ -213,6 +213,26 @@ def check(ctx):
         pos = norm(stores[0].targets[0].slice)
         vec_idx = {norm(n.slice) for n in ast.walk(l) if isinstance(n, ast.Subscript) and isinstance(n.value, ast.Subscript)
                    and norm(n.value.value) == kwname}
+        if not vec_idx:
+            # any other way of reaching the vector arguments: every element read at a position-like index (a counter of a
+            # flatnonzero / range / enumerate loop, or an integer constant) on something that is neither the output nor x
+            posvars = set()
+            for f_ in [n for n in ast.walk(rp.node) if isinstance(n, ast.For)]:
+                it_ = norm(f_.iter)
+                if "flatnonzero" in it_ or it_.startswith("range(") or it_.startswith("enumerate("):
+                    t_ = f_.target.elts[0] if isinstance(f_.target, ast.Tuple) and it_.startswith("enumerate(") else f_.target
+                    posvars |= {n.id for n in ast.walk(t_) if isinstance(n, ast.Name)}
+            xo_ = {norm(n.targets[0]) for n in body_nodes(rp.node) if isinstance(n, ast.Assign) and isinstance(n.targets[0], ast.Name)
+                   and ".astype(object)" in norm(n.value)}
+            for n in ast.walk(l):
+                if isinstance(n, ast.Subscript) and isinstance(n.ctx, ast.Load) and norm(n.value) not in xo_ | {outn, rp.params[0]}:
+                    sl = n.slice
+                    if (isinstance(sl, ast.Constant) and isinstance(sl.value, int)) or \
+                            any(isinstance(m, ast.Name) and m.id in posvars for m in ast.walk(sl)):
+                        vec_idx.add(norm(sl))
+        if not vec_idx:
+            raise AnalysisError(f"{rp.qualname}: no element of a vector argument is read in the loop that fills {outn}; "
+                                f"the position agreement of replace() arguments has nothing to judge")
         ok = vec_idx <= {pos} and bool(vec_idx)
         ctx.ob("SIB-19", rp, f"out[{pos}] built from vector arguments indexed {sorted(vec_idx)}", stores[0], ok,
                "vector arguments are read at the vector position that is written" if ok else
